@@ -517,3 +517,50 @@ Proof.
   - apply tbl_delete in H. tauto.
   - apply tbl_update in H. tauto.
 Qed.
+
+(* ---------- rows keep the arity of their table ---------- *)
+Definition arity_ok (s : schema) (d : db) : Prop :=
+  forall c r, In r (tbl d c) -> length r = ts_arity (tsch s c).
+
+Lemma length_apply_sets sets : forall r, length (apply_sets r sets) = length r.
+Proof.
+  induction sets as [|[i v] sets IH]; intros r; cbn; [reflexivity|]. rewrite IH. apply length_set_col.
+Qed.
+
+Lemma nth_set_col_same r i v : i < length r -> nth i (set_col r i v) 0%N = v.
+Proof.
+  revert i. induction r as [|x r IH]; intros [|i] H; cbn in *; try lia; try reflexivity.
+  apply IH. lia.
+Qed.
+
+Theorem exec_preserves_arity s d st d' : arity_ok s d -> exec s d st = DbOk d' -> arity_ok s d'.
+Proof.
+  intros Ha H c r Hr. destruct st as [t r0|t cols vals strict|t k sets strict]; cbn in H.
+  - pose proof (tbl_insert s d t r0 d' H) as [Tt [To _]]. apply db_insert_ok_inv in H.
+    destruct H as [_ [Hlen _]]. destruct (Nat.eq_dec c t) as [->|Hn].
+    + rewrite Tt in Hr. apply in_app_or in Hr. destruct Hr as [Hr|[<-|[]]]; [apply Ha; exact Hr|exact Hlen].
+    + rewrite (To c Hn) in Hr. apply Ha. exact Hr.
+  - apply tbl_delete in H. destruct H as [Ht _]. rewrite Ht in Hr. apply filter_In in Hr. apply Ha. tauto.
+  - pose proof (tbl_update s d t k sets strict d' H) as [To [_ Tt]].
+    destruct (Nat.eq_dec c t) as [->|Hn]; [|rewrite (To c Hn) in Hr; apply Ha; exact Hr].
+    destruct (Nat.lt_ge_cases t (length d)) as [L|L].
+    + rewrite (Tt L) in Hr. apply in_map_iff in Hr. destruct Hr as [r0 [E Hr0]]. rewrite <- E.
+      destruct (key_eqb (proj r0 (ts_pk (tsch s t))) k); [rewrite length_apply_sets|]; apply Ha; exact Hr0.
+    + apply db_update_inv in H. destruct H as [_ [_ E]]. subst d'.
+      rewrite tbl_out_of_range in Hr; [destruct Hr|]. rewrite length_set_tbl. exact L.
+Qed.
+
+Lemma delete_root_preserves_arity s d root d' : arity_ok s d -> db_delete_root s d root = DbOk d' -> arity_ok s d'.
+Proof.
+  intros Ha H c r Hr. apply db_delete_root_inv in H. destruct H as [_ [Ht _]]. rewrite Ht in Hr.
+  apply filter_In in Hr. apply Ha. tauto.
+Qed.
+
+Lemma exec_ignore_arity s d st : arity_ok s d -> arity_ok s (exec_ignore s d st).
+Proof.
+  intros Ha. unfold exec_ignore. destruct (exec s d st) as [d'|e] eqn:E; [|exact Ha].
+  exact (exec_preserves_arity s d st d' Ha E).
+Qed.
+
+Lemma db_empty_arity s : arity_ok s (db_empty s).
+Proof. intros c r Hr. rewrite tbl_db_empty in Hr. destruct Hr. Qed.
